@@ -264,12 +264,43 @@ def run_selftest(pids, jobs=8, verbose=True, variants=None, seeded=True, write=T
                     if verbose:
                         print(f"seeded {d.name}: NOT reported by {pid} (exit {rc})")
                 shutil.rmtree(root, ignore_errors=True)
+        # behaviour-preserving refactorings written by independent engineers: never a violation (exit 1); exit 0 is the aim,
+        # exit 2 (cannot decide the restructured code) is tolerated and counted
+        report["neutral"] = {}
+        nd = VERIF / "seeded_neutral"
+        for d in sorted(nd.iterdir()) if (seeded and nd.exists()) else []:
+            meta = json.loads((d / "meta.json").read_text())
+            pid = meta["property"]
+            if pid not in pids:
+                continue
+            root = tmp / d.name
+            shutil.copytree(REPO, root, ignore=shutil.ignore_patterns(".git", "__pycache__", "*.egg-info"), symlinks=True)
+            subprocess.run(["git", "init", "-q", "."], cwd=root, capture_output=True)
+            ap = subprocess.run(["git", "apply", "--whitespace=nowarn", str(d / "patch.diff")], cwd=root, capture_output=True, text=True)
+            if ap.returncode != 0:
+                report["neutral"][d.name] = "patch does not apply"
+                shutil.rmtree(root, ignore_errors=True)
+                continue
+            (_, rc, lines), = run_checks(root, [pid], tmp / ("ev_" + d.name), 1)
+            report["neutral"][d.name] = rc
+            if rc == 1:
+                bad += 1
+                if verbose:
+                    print(f"neutral refactoring {d.name}: FALSE ALARM by {pid}")
+                    for l in lines[:3]:
+                        print("    " + l[:260])
+            shutil.rmtree(root, ignore_errors=True)
     finally:
         shutil.rmtree(tmp, ignore_errors=True)
     nb = sum(1 for v in report["benign"].values() for rc in v.values() if rc == 0)
     tb = sum(len(v) for v in report["benign"].values())
     nk = sum(1 for rc in report["breaking"].values() if rc == 1)
-    print(f"selftest: benign variants silent {nb}/{tb}; seeded changes reported {nk}/{len(report['breaking'])}")
+    neu = report.get("neutral", {})
+    n0 = sum(1 for rc in neu.values() if rc == 0)
+    n2 = sum(1 for rc in neu.values() if rc == 2)
+    n1 = sum(1 for rc in neu.values() if rc == 1)
+    print(f"selftest: benign variants silent {nb}/{tb}; seeded changes reported {nk}/{len(report['breaking'])}; "
+          f"neutral refactorings: {n0} silent, {n2} undecided, {n1} false alarms (of {len(neu)})")
     if write:
         (VERIF / "evidence").mkdir(exist_ok=True)
         (VERIF / "evidence" / "selftest.json").write_text(json.dumps(report, indent=1))
